@@ -330,6 +330,27 @@ impl Model for E1Model {
     }
 }
 
+/// Thorough-tier validation of the state key (DESIGN §5.1): re-explore `slice` with every
+/// history as its own state and require that every (implementation key, reference key) pair
+/// it reaches was also reached by the merged exploration, and that it finds no violation.
+pub fn validate_key(st: &mut Stats, merged_keys: &HashSet<u64>, slice: Vec<Case>, oracle: Oracle, deadline: &Deadline) {
+    if slice.is_empty() || !st.violations.is_empty() {
+        return;
+    }
+    let n = slice.len();
+    let un = explore(slice, oracle, false, deadline);
+    let missing = un.keys.iter().filter(|k| !merged_keys.contains(k)).count();
+    st.extra.insert("stateless_recheck_cases".into(), serde_json::json!(n));
+    st.extra.insert("stateless_recheck_states".into(), serde_json::json!(un.stats.states));
+    st.extra.insert("stateless_recheck_keypairs_not_seen_by_merged_run".into(), serde_json::json!(missing));
+    if missing > 0 && un.stats.caps.is_empty() && st.caps.is_empty() {
+        st.violation("state key unsound", 0, format!("{missing} (implementation key, reference key) pairs reached by the stateless exploration were never visited by the merged exploration"), || serde_json::json!({"kind": "none", "observed": [], "expected": []}));
+    }
+    for (k, v) in un.stats.violations {
+        st.violations.insert(format!("{k} (stateless)"), v);
+    }
+}
+
 pub struct E1Result {
     pub stats: Stats,
     pub keys: HashSet<u64>,
